@@ -1,5 +1,6 @@
 """Sidecar contracts for property C06: BaseGridder.filter, Chain, Vector (composition)."""
 import numpy as np
+import numpy as _real_numpy  # (the engine swaps the name `np` of a target's module for its prelude)
 
 from pyvc.arr import SymArr, as_array, flat_index, havoc_array, new_array
 from pyvc.concrete import unwrap, wrap
@@ -359,6 +360,14 @@ class ChainFilter(Contract):
 
 def chain_identity(steps, coordinates, data, weights):
     chain = verde.Chain(steps)
+    if type(coordinates[0]) is _real_numpy.ndarray and coordinates[0].size > 3:
+        # native run (bounded stage): "repeated fits of the same chain" - the chain has first been fitted to OTHER data
+        import warnings
+
+        with warnings.catch_warnings():
+            warnings.simplefilter("ignore")
+            other = lambda x: None if x is None else (tuple(other(v) for v in x) if isinstance(x, tuple) else _real_numpy.asarray(x)[::-1] * 0.83 + 0.21)  # noqa: E731
+            chain.fit(other(tuple(coordinates)), other(data), other(weights) if weights is None or isinstance(weights, tuple) else _real_numpy.abs(other(weights)) + 0.1)
     chain.fit(coordinates, data, weights)
     pred = chain.predict(coordinates)
     # the last residual, recomputed by threading the steps' own filter by hand on fresh twins
